@@ -257,6 +257,12 @@ class AsyncFIXConnection:
                     f" connection, got {repr(msg)}"
                 )
             await self._state_set(ConnectionState.LOGON_INITIAL_SENT)
+            if self._connection_state < ConnectionState.NETWORK_CONN_ESTABLISHED:
+                # lost while the application was busy in on_state_change()
+                raise FIXConnectionError(
+                    "Connection was lost before the first message could be sent, got"
+                    f" state: {repr(self._connection_state)}"
+                )
             self._connection_role = ConnectionRole.INITIATOR
         else:
             if self._connection_role == ConnectionRole.INITIATOR:
